@@ -871,7 +871,7 @@ def «bp.wait_for_readers.params» : List String := ["input_readers", "cur_snap_
 
 /-- `urcu_bp_synchronize_rcu` (src/urcu-bp.c) -/
 def «bp.urcu_bp_synchronize_rcu» : Stmt :=
-  block [(.assign "_goto_out" (.lit 0)), (.prim (some "_t1") (.ext "sigfillset") [.addrGlob "&newmask"]), (.assign "ret" (.var "_t1")), (.prim (some "_t2") (.ext "pthread_sigmask") [.cst "SIG_BLOCK" (0), .addrGlob "&newmask", .addrGlob "&oldmask"]), (.assign "ret" (.var "_t2")), (.prim none (.ext "mutex_lock") [.addrGlob "rcu_gp_lock"]), (.prim none (.ext "mutex_lock") [.addrGlob "rcu_registry_lock"]), (.prim (some "_t3") (.ext "cds_list_empty") [.addrGlob "registry"]), (.ifte (.var "_t3") (.assign "_goto_out" (.lit 1)) (.skip)), (.ifte (.var "_goto_out") (.skip) (block [(.call none [] [] «bp.smp_mb_master»), (.call none ["input_readers", "cur_snap_readers", "qsreaders", "group"] [.addrGlob "registry", .addrGlob "&cur_snap_readers", .addrGlob "&qsreaders", .addrGlob "&acquire_group"] «bp.wait_for_readers»), (.prim none .mb []), (.prim none .ustore [.fieldAddr (.addrGlob "rcu_gp") "ctr", .bin .bxor (.pload (.fieldAddr (.addrGlob "rcu_gp") "ctr")) (.cst "URCU_BP_GP_CTR_PHASE" (4294967296)), .cst "CMM_RELAXED" (0)]), (.prim none .mb []), (.call none ["input_readers", "cur_snap_readers", "qsreaders", "group"] [.addrGlob "&cur_snap_readers", .null, .addrGlob "&qsreaders", .addrGlob "&acquire_group"] «bp.wait_for_readers»), (.prim none (.ext "cds_list_splice") [.addrGlob "&qsreaders", .addrGlob "registry"]), (.call none [] [] «bp.smp_mb_master»)])), (.assign "_goto_out" (.lit 0)), (.prim none (.ext "mutex_unlock") [.addrGlob "rcu_registry_lock"]), (.prim none (.ext "mutex_unlock") [.addrGlob "rcu_gp_lock"]), (.prim (some "_t4") (.ext "pthread_sigmask") [.cst "SIG_SETMASK" (2), .addrGlob "&oldmask", .null]), (.assign "ret" (.var "_t4"))]
+  block [(.assign "_goto_out" (.lit 0)), (.prim (some "_t1") (.ext "sigfillset") [.addrGlob "&newmask"]), (.assign "ret" (.var "_t1")), (.prim (some "_t2") (.ext "pthread_sigmask") [.cst "SIG_BLOCK" (0), .addrGlob "&newmask", .addrGlob "&oldmask"]), (.assign "ret" (.var "_t2")), (.prim none (.ext "mutex_lock") [.addrGlob "rcu_gp_lock"]), (.prim none (.ext "mutex_lock") [.addrGlob "rcu_registry_lock"]), (.prim (some "_t3") (.ext "cds_list_empty") [.addrGlob "registry"]), (.ifte (.var "_t3") (.assign "_goto_out" (.lit 1)) (.skip)), (.ifte (.var "_goto_out") (.skip) (block [(.call none [] [] «bp.smp_mb_master»), (.call none ["input_readers", "cur_snap_readers", "qsreaders", "group"] [.addrGlob "registry", .addrGlob "&cur_snap_readers", .addrGlob "&qsreaders", .addrGlob "&acquire_group"] «bp.wait_for_readers»), (.prim none .mb []), (.prim none .ustore [.fieldAddr (.addrGlob "urcu_bp_gp") "ctr", .bin .bxor (.pload (.fieldAddr (.addrGlob "urcu_bp_gp") "ctr")) (.cst "URCU_BP_GP_CTR_PHASE" (4294967296)), .cst "CMM_RELAXED" (0)]), (.prim none .mb []), (.call none ["input_readers", "cur_snap_readers", "qsreaders", "group"] [.addrGlob "&cur_snap_readers", .null, .addrGlob "&qsreaders", .addrGlob "&acquire_group"] «bp.wait_for_readers»), (.prim none (.ext "cds_list_splice") [.addrGlob "&qsreaders", .addrGlob "registry"]), (.call none [] [] «bp.smp_mb_master»)])), (.assign "_goto_out" (.lit 0)), (.prim none (.ext "mutex_unlock") [.addrGlob "rcu_registry_lock"]), (.prim none (.ext "mutex_unlock") [.addrGlob "rcu_gp_lock"]), (.prim (some "_t4") (.ext "pthread_sigmask") [.cst "SIG_SETMASK" (2), .addrGlob "&oldmask", .null]), (.assign "ret" (.var "_t4"))]
 def «bp.urcu_bp_synchronize_rcu.params» : List String := []
 
 /-- `urcu_bp_sys_membarrier_status` (src/urcu-bp.c) -/
